@@ -310,7 +310,34 @@ fn bits_eq(a: &[f64], b: &[f64]) -> bool {
 fn run_full(r: &Req) -> String {
     let (p, st) = (parse_prob(r), Sets::parse(r));
     let mut solver = new_solver(&p, &st);
-    let perm = perm_of(&solver);
+    observe_solve(&mut solver)
+}
+
+/// `solve()` a second time on the same solver object: everything the first solve left behind
+/// (iterate, residuals, step vectors, KKT work vectors and factors, cone scalings, `info`) is
+/// the starting state of the second one.  The response is the full record of the SECOND solve
+/// plus the figures of the first one and whether the two returned the same bits.
+fn run_twice(r: &Req) -> String {
+    let (p, st) = (parse_prob(r), Sets::parse(r));
+    let mut solver = new_solver(&p, &st);
+    solver.solve();
+    let f = &solver.solution;
+    let (st1, it1, x1, s1, z1) = (f.status as usize, f.iterations, f.x.clone(), f.s.clone(), f.z.clone());
+    let sc1 = [f.obj_val, f.obj_val_dual, f.r_prim, f.r_dual];
+    let out = observe_solve(&mut solver);
+    let g = &solver.solution;
+    let same = st1 == g.status as usize
+        && it1 == g.iterations
+        && bits_eq(&x1, &g.x)
+        && bits_eq(&s1, &g.s)
+        && bits_eq(&z1, &g.z)
+        && bits_eq(&sc1, &[g.obj_val, g.obj_val_dual, g.r_prim, g.r_dual]);
+    format!("{} status1={} iterations1={} x1={} s1={} z1={} same={}", out, st1, it1, ffs(&x1), ffs(&s1), ffs(&z1), same as usize)
+}
+
+/// run `solve()` under the observer and render every pass + the returned solution
+fn observe_solve(solver: &mut DefaultSolver<f64>) -> String {
+    let perm = perm_of(solver);
     observer::start();
     solver.solve();
     let ev = observer::take();
@@ -427,7 +454,49 @@ fn run_full(r: &Req) -> String {
 
 /// self-check of the observer: the returned point is the un-scaling of the last recorded
 /// iterate, or of the one before it exactly when the loop rolled back
-fn oracle_full(_r: &Req, out: &str) -> Result<(), String> {
+fn oracle_full(r: &Req, out: &str) -> Result<(), String> {
+    oracle_observer(r, out)?;
+    oracle_prefix(r, out)
+}
+
+/// budget independence (C07) stated on the implementation's own runs: a run limited to
+/// `max_iter = k` (small `k`) goes through exactly the first passes of a run of a fresh solver
+/// with `max_iter = k + 3` — every recorded iterate `(x, s, z, τ, κ)` identical, bit for bit
+fn oracle_prefix(r: &Req, out: &str) -> Result<(), String> {
+    if out.starts_with("panic") || out.starts_with("err") {
+        return Ok(());
+    }
+    let (p, mut st) = (parse_prob(r), Sets::parse(r));
+    if st.maxiter > 5 {
+        return Ok(());
+    }
+    st.maxiter += 3;
+    let long = match std::panic::catch_unwind(std::panic::AssertUnwindSafe(|| {
+        let mut solver = new_solver(&p, &st);
+        observe_solve(&mut solver)
+    })) {
+        Ok(l) => l,
+        Err(_) => return Ok(()),
+    };
+    let a = Req::parse(&format!("o {}", out)).ok_or("unparsable response")?;
+    let b = Req::parse(&format!("o {}", long)).ok_or("unparsable response (long run)")?;
+    let (na, nb) = (a.u("np"), b.u("np"));
+    if nb < na {
+        return Err(format!("the run with max_iter + 3 makes fewer passes ({}) than the run with max_iter ({})", nb, na));
+    }
+    for key in ["px", "ps", "pz", "ptau", "pkap"] {
+        let (u, v) = (a.fs(key), b.fs(key));
+        if na == 0 || u.len() % na != 0 {
+            return Err(format!("observer: {} has {} entries for {} passes", key, u.len(), na));
+        }
+        if v.len() < u.len() || !bits_eq(&u, &v[..u.len()]) {
+            return Err(format!("budget dependence: the first {} iterates ({}) of the run with max_iter = {} differ from those of the run with max_iter = {}", na, key, st.maxiter - 3, st.maxiter));
+        }
+    }
+    Ok(())
+}
+
+fn oracle_observer(_r: &Req, out: &str) -> Result<(), String> {
     if out.starts_with("panic") || out.starts_with("err") {
         return Ok(());
     }
@@ -451,6 +520,40 @@ fn oracle_full(_r: &Req, out: &str) -> Result<(), String> {
     }
     if o.us("pit").len() != np || o.us("pst").len() != np {
         return Err("observer: pass / isdone events out of step".into());
+    }
+    Ok(())
+}
+
+/// the second `solve()` on the same object: observer self-check, plus the property "the same
+/// solver solved twice gives the same answer" (C05) stated on the implementation's own two runs
+fn oracle_twice(r: &Req, out: &str) -> Result<(), String> {
+    oracle_observer(r, out)?;
+    if out.starts_with("panic") || out.starts_with("err") {
+        return Ok(());
+    }
+    let o = Req::parse(&format!("o {}", out)).ok_or("unparsable response")?;
+    let (st1, st2) = (o.u("status1"), o.u("status"));
+    let finite = |k: &str| o.fs(k).iter().all(|v| v.is_finite());
+    let all_finite = ["x", "s", "z", "x1", "s1", "z1"].iter().all(|k| finite(k));
+    // a first solve that ended in an error status (NumericalError / InsufficientProgress) or
+    // with non-finite figures leaves an iterate behind that the second `default_start` may keep
+    // (its KKT solve is not checked); the property is claimed for solves that reached a verdict
+    let verdict = matches!(st1, 1..=8);
+    if !(verdict && all_finite) {
+        return Ok(());
+    }
+    if st1 != st2 {
+        return Err(format!("second solve on the same solver ends with status {} (first: {})", st2, st1));
+    }
+    if o.u("iterations1") != o.u("iterations") {
+        return Err(format!("second solve takes {} iterations (first: {})", o.u("iterations"), o.u("iterations1")));
+    }
+    // values: equal as numbers (a signed zero may differ: `y = a*x + 0*y` keeps the sign of a stale zero)
+    for (a, b) in [("x1", "x"), ("s1", "s"), ("z1", "z")] {
+        let (u, v) = (o.fs(a), o.fs(b));
+        if u.len() != v.len() || u.iter().zip(v.iter()).any(|(p, q)| p != q) {
+            return Err(format!("second solve on the same solver returns a different {}", b));
+        }
     }
     Ok(())
 }
@@ -497,7 +600,8 @@ fn random_cones(rng: &mut Rng, kinds: &str, mmax: usize, degenerate: bool) -> Ve
         let c = match k {
             'z' => ZeroConeT(1 + rng.below(3)),
             'n' => NonnegativeConeT(1 + rng.below(5)),
-            _ => SecondOrderConeT(2 + rng.below(7)), // 2..=8: both sides of the expansion threshold 4
+            // 2..=8: both sides of the sparse-expansion threshold 4; now and then a larger one
+            _ => SecondOrderConeT(if rng.bool(0.15) { 9 + rng.below(6) } else { 2 + rng.below(7) }),
         };
         if m + nvars(&c) > mmax {
             continue;
@@ -701,6 +805,14 @@ fn submit_all(s: &mut Session, p: &Prob, st: &Sets, stages: bool) {
             s.submit(line.replacen("solve.full", "solve.setup", 1));
             s.submit(line.replacen("solve.full", "solve.init", 1));
         }
+        {
+            let out2 = s.submit(line.replacen("solve.full", "solve.twice", 1));
+            if let Some(r) = Req::parse(&format!("o {}", out2)) {
+                if r.has("same") {
+                    s.count(if r.u("same") == 1 { "twice:bit-identical" } else { "twice:differs" });
+                }
+            }
+        }
         let out = s.submit(line);
         if let Some(r) = Req::parse(&format!("o {}", out)) {
             if r.has("status") {
@@ -796,6 +908,18 @@ fn generate(s: &mut Session) {
         let st = random_sets(&mut rng, 1 + k % 5);
         submit_all(s, &p, &st, k % 3 == 0);
     }
+    // stage 5c: small iteration budgets 0..=5 on one problem each (budget independence: every run
+    // is compared with the model bit for bit, and `oracle_prefix` compares it with a longer run
+    // of the implementation itself)
+    for k in 0..s.budget(12, 120) {
+        let p = plant(&mut rng, Plant::Feasible, if k % 2 == 0 { "znq" } else { "nq" }, nmax, mmax, k % 3 == 0, k % 2 == 0, false);
+        let mut st = random_sets(&mut rng, 4);
+        for budget in 0..=5u32 {
+            st.maxiter = budget;
+            s.count("family:small-budget");
+            submit_all(s, &p, &st, false);
+        }
+    }
     // stage 6: everything at its default
     for k in 0..s.budget(30, 600) {
         let p = plant(&mut rng, Plant::Feasible, "znq", nmax, mmax, k % 2 == 0, false, false);
@@ -814,7 +938,7 @@ fn channels() -> Vec<Channel> {
             oracle: None,
             modelled: true,
             rust_fn: "DefaultSolver::new (collapse, presolve, equilibrate, DirectLDLKKTSolver::new)",
-            lean: "Solver.SolverSt.new / SolverModel.internal_data_is_scaled_user_data",
+            lean: "Solver.SolverSt.new, Solver.internalData / C05.full_internal_data_is_scaled_user_data, C03.full_solution_lengths",
         },
         Channel {
             name: "solve.init",
@@ -823,7 +947,7 @@ fn channels() -> Vec<Channel> {
             oracle: None,
             modelled: true,
             rust_fn: "IPSolverInternals::default_start (identity scaling, kktsystem.update, solve_initial_point, symmetric_initialization)",
-            lean: "Solver.SolverSt.defaultStart",
+            lean: "Solver.SolverSt.defaultStart / C07.full_start_budget_independent, C04.full_refines_loop (absInit)",
         },
         Channel {
             name: "solve.full",
@@ -832,7 +956,16 @@ fn channels() -> Vec<Channel> {
             oracle: Some(oracle_full),
             modelled: true,
             rust_fn: "DefaultSolver::new + IPSolver::solve (whole trajectory, observer) + DefaultSolution",
-            lean: "Solver.SolverSt.solve / SolverModel.solve_refines_loop, solution_lengths",
+            lean: "Solver.Solver.solve, Solver.pass, Solver.runLoop / C04.full_refines_loop, C04.full_terminates, C04.full_solve_terminal, C04.full_no_stale_prev, C03.full_iterations_eq_kkt_updates, C03.full_solution_lengths, C07.full_prefix, C07.full_pass_budget_independent",
+        },
+        Channel {
+            name: "solve.twice",
+            tol: Tol::Exact,
+            run: run_twice,
+            oracle: Some(oracle_twice),
+            modelled: true,
+            rust_fn: "DefaultSolver::new + IPSolver::solve twice on the same object (second trajectory, observer) + DefaultSolution",
+            lean: "Solver.Solver.solve ∘ Solver.Solver.solve / C05.full_solve_info_irrelevant, C05.full_solve_keeps_data, C03.full_solution_lengths",
         },
     ]
 }
